@@ -120,13 +120,14 @@ int main(int argc, char **argv) {
     int shard = args.i("shard", 0), nshards = args.i("nshards", 1);
     int max_offsets = args.i("max_offsets", 0);   // 0 = every offset (exhaustive)
     std::string only = args.s("kind", "");
+    int size_class = args.i("size", 0);   // 0 = tiny objects; 3 = large arrays (single reads of 16 KB and more) for the kinds that have them
     rng.reseed(seed * 1000003ull + 17);
     seed_library(seed);
     IoGen g(rng);
     std::vector<Kind> K = io_kinds();
     // one tiny object per kind (identical in every shard: same PRNG stream)
     std::vector<HP> objs; std::vector<std::string> bytes; std::vector<std::vector<size_t>> tags(K.size());
-    for (size_t i = 0; i < K.size(); i++) { objs.push_back(K[i].make(g, 0)); bytes.push_back(export_with_tags(K[i], *objs[i], tags[i])); }
+    for (size_t i = 0; i < K.size(); i++) { objs.push_back(K[i].make(g, size_class)); bytes.push_back(export_with_tags(K[i], *objs[i], tags[i])); }
     uint64_t caseno = 0;
     auto mine = [&]() { return (int) (caseno++ % nshards) == shard; };
     if (mode == "prefix") {
@@ -140,6 +141,7 @@ int main(int argc, char **argv) {
                 for (size_t L = len > 64 ? len - 64 : 0; L < len; L++) s.insert(L);
                 for (size_t t: tags[i]) for (int d = -16; d <= 16; d++) if ((long) t + d >= 0 && t + d < len) s.insert(t + d);
                 size_t p = 0; while ((p = full.find("-----", p)) != std::string::npos) { for (int d = -8; d <= 40; d++) if ((long) p + d >= 0 && p + d < len) s.insert(p + d); p += 5; if (p > 4096) break; }
+                for (size_t L = len > 70000 ? len - 70000 : 0; L < len; L += 97) s.insert(L);   // inside the last large array
                 while (s.size() < (size_t) max_offsets) s.insert(rng.below(len));
                 offs.assign(s.begin(), s.end());
             }
